@@ -550,8 +550,17 @@ def replay(path):
     return 1 if (real or out.mismatches) else 0
 
 
-SCOPE = "partial: see Properties/C18.v"
-EXPLANATION = ""
+SCOPE = ("partial: C18_full (Properties/C18.v) minus its last conjunct is proved for every valid configuration, initial state and history (C18_partial: "
+         "every call is a no-op before the start epoch / a rolled-back failure / a minted epoch with the exact split; mint account empty; reductions exactly at "
+         "start + k*period over consecutive successful epochs) together with bank_supply_delta, supply_growth_partial (supply + offset grows by minted - r, "
+         "0 <= r < #receivers, r = 0 without receivers) and the cumulative version; what is missing is 'the reported supply grows by exactly the minted amount', "
+         "which is false of the faithful model: supply_exact_refuted / C18_full_refuted (finding F3, witness replayed on the implementation on every run). "
+         "Not proved: that a call with sufficient vesting balance never fails (finding F9 shows the pool-incentives hook can panic); Int/Dec overflow is outside the model")
+EXPLANATION = ("Axiom-free Coq theorems over the Gallina model C18/Model.v (AfterEpochEnd, DistributeMintedCoin, distributeDeveloperRewards, getProportions, "
+               "the pool-incentives AllocateAsset hook, over a small bank with balances / supply / supply offset / community pool) by induction over call histories. "
+               "The model is tied to /repo on every run: the real mint keeper of the full app is driven with generated parameter sets and histories and every observable "
+               "(nine account classes, supply, offset, provisions, last-reduction epoch, call status) is compared after every call; an independent exact-integer oracle "
+               "evaluates the property's predicates on the implementation's observations.")
 TRUSTED = [
     "hand-written model coq/theories/C18/Model.v (x/mint hooks/keeper, bank/distribution/pool-incentives as far as the mint denom is concerned), tied to /repo by the correspondence run (harness/c18drv, full app)",
     "harness/c18drv + harness/apph (Go), props/c18.py (generator, flattening, oracle), Coq vm_compute evaluation of generated case files",
@@ -563,8 +572,13 @@ ASSUMPTIONS = [
     "amounts stay below the sdk.Int / LegacyDec overflow bounds; epoch numbers are non-negative int64",
 ]
 TECHNIQUE = "Coq proof over a Gallina model of AfterEpochEnd/DistributeMintedCoin; model tied to the full app by differential correspondence (vm_compute) + exact-integer oracle"
-LEVEL_TEXT = ""
-LEVEL_NOTE = ""
+LEVEL_TEXT = ("Machine-checked theorems (Coq 8.16.1, axiom-free) for all valid parameter sets, initial provisions and call histories: exact split with the community "
+              "pool taking the remainder, mint account empty, nothing before the start epoch, reductions exactly at start + k*period, bank supply +minted-dev, reported "
+              "supply +minted-r with the tight bound on r; the exact-growth clause of the property is refuted by a vm_compute witness (finding F3). The model is hand-written "
+              "and checked against the real keeper (full app) on generated histories on every run, plus an independent oracle.")
+LEVEL_NOTE = ("Trusted: Coq kernel (vm_compute, no native_compute), no axioms; hand-written model C18/Model.v; Go driver harness/c18drv (full app through apph, params "
+              "installed through the keeper's InitGenesis) and python glue; SDK bank/distribution/params keepers modelled only as far as the mint denom's balances, supply, "
+              "offset and community pool entry; sdk.Int/LegacyDec overflow and gas not modelled.")
 
 if __name__ == "__main__":
     import sys
